@@ -6,6 +6,9 @@ from . import assemble, kani
 def fixed_replays(pid, repo):
     """regression guard for repaired defects: the failing input of every finding recorded as `fixed` for this property is
     replayed on the real code of the tree under check (binaries of /verif/replay, which exit 1 when the defect shows)"""
+    if os.path.abspath(repo) != '/repo' and not os.environ.get('VX_REPLAY_GUARD'):
+        # scratch copies (seed / benign / self-test tabulation) skip the replays unless asked: each one would compile the crate anew
+        return []
     kf = json.load(open(os.path.join(assemble.VERIF, 'known_findings.json')))
     res = []
     env = dict(os.environ, CARGO_NET_OFFLINE='true')
